@@ -42,6 +42,8 @@ def run(ctx, prop):
             ctx.notes["hostile_dial_failed"] = e.get("dialFailed")
         if e.get("op") == "settled":
             ctx.notes["settle_ms"] = e.get("ms")
+    if not any('"op":"Final"' in line.replace(" ", "") for line in open(lp)):
+        ctx.add_drift({"op": "Final", "detail": "the server's final state was not recorded (ended by the harness?)"})
     ctx.cov["traces_validated_against_impl"] += 1
     ctx.notes["plans"] = len(plans)
     for v in viol:
